@@ -74,6 +74,10 @@ def run(tier, seed, ck=None):
             ck.violation('equal', 'Equal/IsIdentity wrong on curve points: %s' % [l.strip() for l in out.splitlines() if 'MISMATCH' in l][:1], path)
         else:
             ck.inconclusive.append('failed obligation did not reproduce: ' + out[-200:])
+    if own:
+        # the verdicts above are about single calls from the initial package state: histories (observe, scribble on returned slices, mutate, observe) must not change them
+        from props import hidden
+        hidden.embed(ck, tier, ('element',), 'C05', 'Equal/IsIdentity')
     return ck.finish() if own else None
 
 
